@@ -569,7 +569,8 @@ class Check:
             'coverage': {
                 # obligations isolated under a listed open finding, and obligations of kind 'bounded' (fixed rank / arity
                 # stand-ins), are decided like the others but are not counted as proof obligations
-                'obligations': len([o for o in self.obligations if o.kind != 'bounded']) - len(finding_obs),
+                'obligations': len([o for o in self.obligations if o.kind != 'bounded'])
+                - len([o for o in finding_obs if o.kind != 'bounded']),
                 'discharged': len([o for o in proved if o.kind != 'bounded']),
                 'bounded_obligations': {'stated': len([o for o in self.obligations if o.kind == 'bounded']),
                                         'discharged': len([o for o in proved if o.kind == 'bounded'])},
